@@ -166,6 +166,7 @@ void build(Ctx& ctx)
 	for (int d : { 1, 4, 8 }) for (std::size_t i = 0; i < gWidths.size(); i += 6) { gCases.push_back({ 0, d, int32_t(i), int32_t(std::min(i + 6, gWidths.size())) }); gCases.push_back({ 1, d, int32_t(i), int32_t(std::min(i + 6, gWidths.size())) }); }
 	gCases.push_back({ 2, 0, 0, 0 });
 	gCases.push_back({ 3, 0, 0, 0 });
+	for (int d : { 1, 4, 8 }) gCases.push_back({ 4, d, 0, 0 });
 }
 
 void runCase(std::size_t i, Ctx& ctx)
@@ -178,7 +179,31 @@ void runCase(std::size_t i, Ctx& ctx)
 	else if (c.kind == 1) {
 		for (int32_t wi = c.w0; wi < c.w1; ++wi) for (int32_t h : gHeights) factory(ctx, c.depth, gWidths[wi], h);
 	}
+	else if (c.kind == 4) {
+		// widths that do not fit 16 bits (a pitch helper called with swapped or narrowed arguments shows only here)
+		for (int32_t w : { 65535, 65536, 65537, 65544, 70000, 131073 }) for (int32_t h : { 1, 2, -3 }) { accepted(ctx, c.depth, w, h, 0, 0); factory(ctx, c.depth, w, h); ctx.count("wide/widths-beyond-16-bits"); }
+	}
 	else if (c.kind == 3) {
+		// headers whose size cross-check holds only modulo 2^32: pitch = 2^p, |height| = 2^(32-p) + j with j rows of pixel bytes present
+		for (int d : { 1, 4, 8 }) for (int64_t w : { int64_t(1), int64_t(8), int64_t(32), int64_t(64), int64_t(256), int64_t(65536), int64_t(1) << 20, int64_t(1) << 28 }) {
+			uint64_t pitch = ((uint64_t(w) * uint64_t(d) + 7) / 8 + 3) & ~uint64_t(3);
+			if (pitch & (pitch - 1)) continue;
+			int pw = 0; while ((uint64_t(1) << pw) < pitch) ++pw;
+			for (int64_t j : { int64_t(0), int64_t(1), int64_t(2), int64_t(3) }) for (int sign = 0; sign < 2; ++sign) {
+				int64_t h = (int64_t(1) << (32 - pw)) + j; if (h > INT32_MAX) continue; if (sign) h = -h;
+				uint64_t s32 = uint64_t(j) * pitch;
+				if (s32 > 4096) continue;
+				ref::RBmp b; b.depth = d; b.width = int32_t(w); b.height = int32_t(h);
+				for (int i = 0; i < (1 << d); ++i) b.palette.push_back({ uint8_t(i), 0, 0, 0 });
+				b.rows.assign(std::size_t(s32), 0x11);
+				std::string key = "depth " + std::to_string(d) + " width " + std::to_string(w) + " height " + std::to_string(h) + " pixel bytes " + std::to_string(s32) + " (= pitch*|height| mod 2^32)";
+				ctx.sub(key);
+				BitmapFile f;
+				auto o = mc::guarded([&] { f = readBmp(ref::encodeBmp(b)); });
+				ctx.transition(); ctx.count("tall/wrap-consistent-headers");
+				if (o.cls == 'R') ctx.violation("C08/accepted-with-fewer-rows-than-height", key, "returned height " + std::to_string(f.imageHeader.height) + " with " + std::to_string(f.pixels.size()) + " pixel bytes");
+			}
+		}
 		// headers with a negative width whose size cross-check holds modulo 2^64: must not come back as a success
 		for (int d : { 1, 4, 8 }) for (int64_t w : { int64_t(-1), int64_t(-2), int64_t(-3), int64_t(-4), int64_t(-8), int64_t(-31), int64_t(-32), int64_t(-33), int64_t(INT32_MIN), int64_t(INT32_MIN) + 1 })
 			for (int k = 0; k < 32; ++k) for (int sign = 0; sign < 2; ++sign) for (int mul : { 1, 3 }) {
